@@ -4,9 +4,19 @@ Property C12 — Dynamic cache: one informer per watched kind, released with its
 Theorems are about `Pko.Model.Cache` (the model of `internal/dynamiccache/cache.go`, tied to the
 Go code by the correspondence harness `harness/C12`) and hold for EVERY operation sequence,
 every owner/kind and every placement of start-up failures.
+
+Second part ("Composed system"): the same for `Pko.Model.InformerMap`, the model of the real
+`Cache` running over the real `InformerMap` (internal/dynamiccache/informer_map.go), where every
+informer that was ever started is remembered with its stop flag.
+
+Third part ("Lock scope"): the structural fact, regenerated from cache.go on every run, that
+makes "one exported call = one atomic model step" true.
 -/
 import Pko.Model.Cache
 import Pko.Model.CacheSpec
+import Pko.Model.InformerMap
+import Pko.Lemmas.C12IM
+import Pko.Gen.CacheLocks
 
 namespace Pko.Props.C12
 open Pko.Model Pko.Model.Cache
@@ -238,5 +248,312 @@ example :
     let s := run init [.watch 0 1 .get, .watch 0 1 .sync, .watch 0 1 .ok, .watch 1 1 .handler, .get 1 .ok, .free 0]
     obsOf s 1 = { informer := true, handlers := true, owners := [1] } ∧ obsOf s 0 = { informer := false, handlers := false, owners := [] } := by
   decide
+
+/-! ## Composed system: real `Cache` over real `InformerMap` (`Pko.Model.InformerMap`) -/
+
+section Composed
+
+/-- Shorthand: the composed state reached by an operation sequence from the empty cache. -/
+abbrev reach (ops : List Op) : InformerMap.State := InformerMap.run InformerMap.init ops
+
+/-- The representation invariant of the composed system holds in every reachable state. -/
+theorem composed_inv (ops : List Op) : Pko.Lemmas.C12IM.Inv (reach ops) :=
+  Pko.Lemmas.C12IM.reachable_inv ops
+
+/-- **started_not_stopped_iff_in_map**: in every reachable state of the composed system the
+informers that were started and whose stop channel is still open are exactly the entries of the
+informer map (no informer runs outside the map, no map entry is dead). -/
+theorem started_not_stopped_iff_in_map (ops : List Op) (id : Nat) (k : Kind) :
+    InformerMap.Running (reach ops) id k ↔ (reach ops).im.map k = some id :=
+  (composed_inv ops).run id k
+
+/-- **running_iff_owned**: in every reachable state of the composed system, some informer of
+kind `k` that was started is still running iff at least one owner watches `k` — the set of
+informers started and not stopped equals the set of kinds with an owner. -/
+theorem running_iff_owned (ops : List Op) (k : Kind) :
+    (∃ id, InformerMap.Running (reach ops) id k) ↔ ∃ o, o ∈ InformerMap.owners (reach ops) k := by
+  have h := composed_inv ops
+  cases hr : (reach ops).refs k with
+  | none =>
+    have hm := h.unref k hr
+    simp only [InformerMap.owners, hr, Option.getD_none, List.not_mem_nil, exists_false, iff_false]
+    rintro ⟨id, hrun⟩
+    have := (h.run id k).1 hrun
+    rw [hm] at this; cases this
+  | some os =>
+    obtain ⟨hne, id, hid, _⟩ := h.ref k os hr
+    constructor
+    · intro _
+      cases os with
+      | nil => exact absurd rfl hne
+      | cons a _ => exact ⟨a, by simp [InformerMap.owners, hr]⟩
+    · intro _; exact ⟨id, (h.run id k).2 hid⟩
+
+/-- **running_unique**: at most one informer per kind runs at any time. -/
+theorem running_unique (ops : List Op) (k : Kind) (id id' : Nat)
+    (h1 : InformerMap.Running (reach ops) id k) (h2 : InformerMap.Running (reach ops) id' k) : id = id' := by
+  have h := composed_inv ops
+  have a := (h.run id k).1 h1
+  have b := (h.run id' k).1 h2
+  rw [a] at b; cases b; rfl
+
+/-- **no_orphan_informer**: no informer that was ever started keeps running for a kind nobody
+owns — whatever happened before (failed starts, sync timeouts, frees). -/
+theorem no_orphan_informer (ops : List Op) (id : Nat) (k : Kind)
+    (hrun : InformerMap.Running (reach ops) id k) : ∃ o, o ∈ InformerMap.owners (reach ops) k :=
+  (running_iff_owned ops k).1 ⟨id, hrun⟩
+
+theorem reach_snoc (ops : List Op) (op : Op) :
+    reach (ops ++ [op]) = (InformerMap.step (reach ops) op).1 := by
+  simp [reach, InformerMap.run]
+
+/-- After a `Watch` that returned an error — informer map failed before creating anything, or the
+started informer timed out syncing, or handler registration failed — no informer of that kind is
+left running, and nothing else changed hands (the kind is still unowned). -/
+theorem no_orphan_after_failed_watch (ops : List Op) (o : Owner) (k : Kind) (f : Fail)
+    (herr : (InformerMap.watch (reach ops) o k f).2 = .err) :
+    (∀ id, ¬ InformerMap.Running (InformerMap.watch (reach ops) o k f).1 id k) ∧
+    InformerMap.owners (InformerMap.watch (reach ops) o k f).1 k = [] := by
+  have hs : (InformerMap.watch (reach ops) o k f).1 = reach (ops ++ [.watch o k f]) := by
+    rw [reach_snoc]; rfl
+  have hown : InformerMap.owners (InformerMap.watch (reach ops) o k f).1 k = [] := by
+    have h := composed_inv ops
+    cases hr : (reach ops).refs k with
+    | some os => simp [InformerMap.watch, hr] at herr
+    | none =>
+      have hm := h.unref k hr
+      rw [Pko.Lemmas.C12IM.watch_unref _ o k f hr hm] at herr ⊢
+      cases f <;> simp at herr <;>
+        simp [InformerMap.owners, Pko.Lemmas.C12IM.failedStart, hr]
+  refine ⟨?_, hown⟩
+  intro id hrun
+  rw [hs] at hrun hown
+  obtain ⟨o', ho'⟩ := no_orphan_informer _ id k hrun
+  rw [hown] at ho'; cases ho'
+
+/-- After `Free o` where `o` was the only owner of `k`, no informer of kind `k` runs. -/
+theorem no_orphan_after_last_free (ops : List Op) (o : Owner) (k : Kind)
+    (honly : ∀ o', o' ∈ InformerMap.owners (reach ops) k → o' = o) :
+    ∀ id, ¬ InformerMap.Running (InformerMap.free (reach ops) o) id k := by
+  have hs : InformerMap.free (reach ops) o = reach (ops ++ [.free o]) := by rw [reach_snoc]; rfl
+  intro id hrun
+  rw [hs] at hrun
+  obtain ⟨o', ho'⟩ := no_orphan_informer _ id k hrun
+  rw [← hs] at ho'
+  cases hr : (reach ops).refs k with
+  | none => simp [InformerMap.owners, InformerMap.free, hr] at ho'
+  | some os =>
+    simp only [InformerMap.owners, hr, Option.getD_some] at honly
+    by_cases hmem : o ∈ os
+    · have hrest : rest o os = [] := by
+        simp only [rest, List.filter_eq_nil_iff]
+        intro a ha; simp [honly a ha]
+      simp [InformerMap.owners, InformerMap.free, hr, hmem, hrest] at ho'
+    · simp only [InformerMap.owners, InformerMap.free, hr, hmem, ↓reduceIte, Option.getD_some] at ho'
+      exact hmem (honly o' ho' ▸ ho')
+
+/-- **retry_starts_exactly_one**: in every reachable state in which nobody owns `k` — in
+particular right after any failed `Watch` — a `Watch` whose start-up succeeds returns ok, starts
+exactly one new informer (the next id) for `k`, attaches the handlers to it, touches no other
+informer, and afterwards exactly that informer runs for `k`. -/
+theorem retry_starts_exactly_one (ops : List Op) (o : Owner) (k : Kind)
+    (hun : InformerMap.owners (reach ops) k = []) :
+    let s := reach ops
+    let r := InformerMap.watch s o k .ok
+    r.2 = .ok ∧ r.1.im.next = s.im.next + 1 ∧
+    (∀ id, InformerMap.Running r.1 id k ↔ id = s.im.next) ∧
+    r.1.handlers s.im.next = true ∧
+    (∀ id, id ≠ s.im.next → r.1.im.infs id = s.im.infs id) ∧
+    InformerMap.owners r.1 k = [o] := by
+  intro s r
+  have h := composed_inv ops
+  have hr : s.refs k = none := by
+    cases hr : s.refs k with
+    | none => rfl
+    | some os =>
+      have := (h.ref k os hr).1
+      simp [s, InformerMap.owners] at hun hr
+      rw [hr] at hun; simp at hun; exact absurd hun this
+  have hm := h.unref k hr
+  have hw : r = (Pko.Lemmas.C12IM.okStart s o k, .ok) := Pko.Lemmas.C12IM.watch_unref s o k .ok hr hm
+  have hinv : Pko.Lemmas.C12IM.Inv r.1 := by rw [hw]; exact Pko.Lemmas.C12IM.inv_okStart h o k hm
+  refine ⟨by rw [hw], by rw [hw]; rfl, ?_, by rw [hw]; simp [Pko.Lemmas.C12IM.okStart],
+    ?_, by rw [hw]; simp [InformerMap.owners, Pko.Lemmas.C12IM.okStart]⟩
+  · intro id
+    rw [hinv.run id k, hw]
+    simp [Pko.Lemmas.C12IM.okStart]
+    exact eq_comm
+  · intro id hne; rw [hw]; simp [Pko.Lemmas.C12IM.okStart, hne]
+
+/-- The failure-then-retry shape spelled out: a failed `Watch` (any failure kind) on an unowned
+kind leaves nothing running; the retried `Watch` starts exactly one informer. -/
+theorem failed_watch_then_retry (ops : List Op) (o : Owner) (k : Kind) (f : Fail) (hf : f ≠ .ok)
+    (hun : InformerMap.owners (reach ops) k = []) :
+    let s1 := (InformerMap.watch (reach ops) o k f).1
+    (InformerMap.watch (reach ops) o k f).2 = .err ∧
+    (∀ id, ¬ InformerMap.Running s1 id k) ∧
+    (InformerMap.watch s1 o k .ok).2 = .ok ∧
+    (∀ id, InformerMap.Running (InformerMap.watch s1 o k .ok).1 id k ↔ id = s1.im.next) := by
+  intro s1
+  have h := composed_inv ops
+  have hr : (reach ops).refs k = none := by
+    cases hr : (reach ops).refs k with
+    | none => rfl
+    | some os =>
+      have := (h.ref k os hr).1
+      simp [InformerMap.owners, hr] at hun; exact absurd hun this
+  have hm := h.unref k hr
+  have herr : (InformerMap.watch (reach ops) o k f).2 = .err := by
+    rw [Pko.Lemmas.C12IM.watch_unref _ o k f hr hm]; cases f <;> simp at hf ⊢
+  have hs1 : s1 = reach (ops ++ [.watch o k f]) := by rw [reach_snoc]; rfl
+  have hno := no_orphan_after_failed_watch ops o k f herr
+  have hretry := retry_starts_exactly_one (ops ++ [.watch o k f]) o k (by rw [← hs1]; exact hno.2)
+  rw [← hs1] at hretry
+  exact ⟨herr, hno.1, hretry.1, hretry.2.2.1⟩
+
+/-- Executable form used by the `informermap` stream: the number of running informers of a kind
+is 1 if the kind has an owner and 0 otherwise (so "open watch streams > 0 ⇔ owned" and "≤ 1"). -/
+theorem running_count (ops : List Op) (k : Kind) :
+    (InformerMap.runningIds (reach ops) k).length =
+      if (InformerMap.owners (reach ops) k).isEmpty then 0 else 1 := by
+  have h := composed_inv ops
+  have key : ∀ id, InformerMap.isRunning (reach ops) k id = true ↔ (reach ops).im.map k = some id := by
+    intro id
+    rw [← h.run id k]
+    cases hx : (reach ops).im.infs id with
+    | none => simp [InformerMap.Running, InformerMap.isRunning, hx]
+    | some x => simp [InformerMap.Running, InformerMap.isRunning, hx]
+  cases hr : (reach ops).refs k with
+  | none =>
+    have hm := h.unref k hr
+    have : InformerMap.runningIds (reach ops) k = [] := by
+      apply Pko.Lemmas.C12IM.filter_range_nil
+      intro i _
+      cases hb : InformerMap.isRunning (reach ops) k i with
+      | false => rfl
+      | true => have := (key i).1 hb; rw [hm] at this; cases this
+    simp [this, InformerMap.owners, hr]
+  | some os =>
+    obtain ⟨hne, id, hid, _⟩ := h.ref k os hr
+    have hlt := h.map_lt hid
+    have : InformerMap.runningIds (reach ops) k = [id] := by
+      have := Pko.Lemmas.C12IM.filter_range_eq (reach ops).im.next id
+        (InformerMap.isRunning (reach ops) k) (fun i _ => by
+          rw [key i, hid]; simp; exact eq_comm)
+      simpa [InformerMap.runningIds, hlt] using this
+    simp [this, InformerMap.owners, hr, hne]
+
+/-- The informer map holds an entry for a kind iff the kind has an owner. -/
+theorem map_entry_iff_owned (ops : List Op) (k : Kind) :
+    ((reach ops).im.map k).isSome = !(InformerMap.owners (reach ops) k).isEmpty := by
+  have h := composed_inv ops
+  cases hr : (reach ops).refs k with
+  | none => simp [h.unref k hr, InformerMap.owners, hr]
+  | some os =>
+    obtain ⟨hne, id, hid, _⟩ := h.ref k os hr
+    simp [hid, InformerMap.owners, hr, hne]
+
+/-- Every informer that runs has synced and carries the controller handlers (composed system). -/
+theorem running_has_handlers_and_synced (ops : List Op) (id : Nat) (k : Kind)
+    (hrun : InformerMap.Running (reach ops) id k) :
+    (reach ops).handlers id = true ∧ (reach ops).im.isSynced id = true := by
+  have h := composed_inv ops
+  have hid := (h.run id k).1 hrun
+  obtain ⟨x, hx, _, hs⟩ := hrun
+  refine ⟨?_, by simp [InformerMap.IM.isSynced, hx, h.synced id x hx hs]⟩
+  cases hr : (reach ops).refs k with
+  | none => rw [h.unref k hr] at hid; cases hid
+  | some os =>
+    obtain ⟨_, id', hid', hh⟩ := h.ref k os hr
+    rw [hid] at hid'; cases hid'; exact hh
+
+/-- **read_path_never_creates**: in every reachable state of the composed system a `Get`/`List`
+changes nothing at all — no informer is created or started through the read path, whatever the
+failure script. -/
+theorem read_path_never_creates (ops : List Op) (k : Kind) (f : Fail) :
+    (InformerMap.get (reach ops) k f).1 = reach ops := by
+  have h := composed_inv ops
+  cases hr : (reach ops).refs k with
+  | none => simp [InformerMap.get, hr]
+  | some os => rw [Pko.Lemmas.C12IM.get_ref h k f os hr]
+
+/-- **composed_refines_cache**: forgetting informer identities, the composed system IS the abstract
+cache model of the first part, for every operation sequence; hence all theorems above about
+`Pko.Model.Cache` (refinement to the who-watches-what spec, idempotence, …) transfer. -/
+theorem composed_refines_cache (ops : List Op) :
+    Pko.Lemmas.C12IM.absC (reach ops) = run init ops := by
+  have := Pko.Lemmas.C12IM.run_sim ops InformerMap.init Pko.Lemmas.C12IM.inv_init
+  rw [Pko.Lemmas.C12IM.absC_init] at this
+  exact this
+
+/-- … and every call returns the same result in both models. -/
+theorem composed_same_results (ops : List Op) (op : Op) :
+    (InformerMap.step (reach ops) op).2 = (step (run init ops) op).2 := by
+  have := Pko.Lemmas.C12IM.step_sim (reach ops) op (composed_inv ops)
+  rw [composed_refines_cache] at this
+  rw [this]
+
+/-- The owner sets of the composed system follow the who-watches-what specification. -/
+theorem composed_owners_eq_spec (ops : List Op) (k : Kind) :
+    InformerMap.owners (reach ops) k = (CacheSpec.run CacheSpec.init ops).w k := by
+  have h1 := composed_refines_cache ops
+  have h2 := run_refines ops
+  have : InformerMap.owners (reach ops) k = owners (run init ops) k := by
+    rw [← h1]; rfl
+  rw [this, ← h2]; rfl
+
+/-- What the `informermap` monitor checks, proved of the model: results and owner sets follow the
+specification, the number of running informers (= open WATCH streams) of a kind is 1 if the kind
+is owned and 0 otherwise, and the informer map has an entry exactly for the owned kinds. -/
+theorem informermap_model_satisfies_monitor (ops : List Op) (op : Op) (k : Kind) :
+    (InformerMap.step (reach ops) op).2 = (CacheSpec.step (CacheSpec.run CacheSpec.init ops) op).2 ∧
+    InformerMap.owners (reach ops) k = (CacheSpec.run CacheSpec.init ops).w k ∧
+    (InformerMap.runningIds (reach ops) k).length
+      = (if ((CacheSpec.run CacheSpec.init ops).w k).isEmpty then 0 else 1) ∧
+    ((reach ops).im.map k).isSome = !((CacheSpec.run CacheSpec.init ops).w k).isEmpty := by
+  refine ⟨?_, composed_owners_eq_spec ops k, ?_, ?_⟩
+  · rw [composed_same_results, (step_refines _ op (Pko.Props.C12.reachable_inv ops)).1, run_refines]
+  · rw [running_count, composed_owners_eq_spec]
+  · rw [map_entry_iff_owned, composed_owners_eq_spec]
+
+/-- Non-vacuity (composed): no REST mapping, then sync timeout, then success; a second owner;
+free both.  Informer 0 was started and stopped by the roll-back, informer 1 ran while owned. -/
+example :
+    let s := reach [.watch 0 1 .get, .watch 0 1 .sync, .watch 0 1 .ok, .watch 1 1 .ok, .get 1 .ok, .free 0]
+    InformerMap.runningIds s 1 = [1] ∧ InformerMap.startedCount s 1 = 2 ∧ InformerMap.syncedCount s 1 = 1 ∧
+    InformerMap.owners s 1 = [1] ∧
+    InformerMap.runningIds (InformerMap.free s 1) 1 = [] ∧ InformerMap.runningIds s 0 = [] := by
+  decide
+
+end Composed
+
+/-! ## Lock scope (structural fact regenerated from cache.go by /verif/extract/c12) -/
+
+/-- What the atomic-step modelling needs: `Watch`/`Free` take the write lock, `Get`/`List`/
+`OwnersForGKV` the read lock, as a top-level statement directly followed by the matching
+`defer …Unlock()`, and neither `c.informerMap` nor `c.informerReferences` is used (directly or
+through another `Cache` method) before the lock, after an explicit unlock, or in a `go` statement. -/
+def expectedLocks : List (String × String × Bool × Bool) := [
+  ("Watch", "Lock", true, false),
+  ("Free", "Lock", true, false),
+  ("Get", "RLock", true, false),
+  ("List", "RLock", true, false),
+  ("OwnersForGKV", "RLock", true, false)]
+
+/-- **locks_cover_bodies**: every exported `Cache` method holds `informerReferencesMux` (write lock
+for the mutators, read lock for the readers) from before its first use of shared state to its
+return.  Breaks when a critical section is narrowed or a lock kind is weakened. -/
+theorem locks_cover_bodies : Pko.Gen.CacheLocks.cacheLocks = expectedLocks := by decide
+
+/-- The calls on the receiver that happen under the lock, per method: in particular every
+`informerMap.Get` / `informerMap.Delete` / `handleNewInformer` call is inside a critical section. -/
+def expectedUnderLock : List (String × List String) := [
+  ("Watch", ["sampleMetrics", "ownerRef", "informerMap.Get", "informerMap.Delete", "cacheSource.handleNewInformer"]),
+  ("Free", ["sampleMetrics", "ownerRef", "informerMap.Delete"]),
+  ("Get", ["informerMap.Get"]),
+  ("List", ["list"]),
+  ("OwnersForGKV", [])]
+
+theorem under_lock_calls : Pko.Gen.CacheLocks.cacheUnderLock = expectedUnderLock := by decide
 
 end Pko.Props.C12
